@@ -37,6 +37,7 @@ def make_solver(hyps, goal):
 def discharge_group(obs: list, use_cvc5=True, cvc5_ms=20000):
     """Obligations that share one path (identical hypothesis list) are discharged on one
     incremental solver (push / goal / pop): the hypotheses are asserted once."""
+    obs = [o for o in obs if o.status != "proved"]  # goals that literally are hypotheses were settled by the generator
     if not obs:
         return
     if len(obs) == 1:
